@@ -1096,6 +1096,9 @@ impl Vm {
                 .expect("Expected ExcHandler.");
             (handler.finally_ip, handler.init_stack_size)
         };
+        // The handlers still active are the ones the finally block about to run is nested in.
+        let outer_handlers = self.active_fiber().exc_handlers.len();
+        self.active_fiber_mut().return_handlers = outer_handlers;
         self.active_fiber_mut().close_upvalues(init_stack_size);
         self.active_fiber_mut().stack.truncate(init_stack_size);
         self.ip = new_ip;
@@ -1574,6 +1577,14 @@ impl Vm {
         } else {
             return Err(self.new_error_from_value(exc_object));
         };
+
+        if self.active_fiber().exc_handlers.len() < self.active_fiber().return_handlers {
+            // The handler was installed before the finally block that a parked return is waiting
+            // for was entered: the exception leaves that block and replaces the return. (A handler
+            // installed later belongs to a try statement inside the block, or in a function it
+            // called, and the return stays pending.)
+            self.active_fiber_mut().take_return_data();
+        }
 
         self.active_fiber_mut()
             .close_upvalues(handler.init_stack_size);
